@@ -92,6 +92,9 @@ func init() {
 			Req: []string{"def($r0, oidc.FindMatchingKey($keyID, $use, $expectedAlg, $keys), 0)"}},
 		{ID: "E1.findkey.only", Fn: "oidc.FindMatchingKey", Kind: "ret ok", Max: 2},
 		{ID: "E1.findkey.ambiguous", Fn: "oidc.FindMatchingKey", Kind: "ret fail", Pat: "ret(_, oidc.ErrKeyMultiple)", Req: []string{"lt(1, len($vk))"}},
+		{ID: "E7.algkeytype.complete", Fn: "oidc.algToKeyType", P: []string{"key", "alg"}, Kind: "ret fail",
+			Why: "a key whose Go type is the public-key type of the algorithm's family is a candidate (every RS*/PS*, ES* and EdDSA algorithm, whatever its size suffix): refusing it makes tokens signed by a served key unverifiable",
+			Req: []string{`((true(strings.HasPrefix($alg, "RS")) || true(strings.HasPrefix($alg, "PS"))) && notis($key, *rsa.PublicKey)) || (true(strings.HasPrefix($alg, "ES")) && notis($key, *ecdsa.PublicKey)) || (eq($alg, jose.EdDSA) && notis($key, ed25519.PublicKey)) || (false(strings.HasPrefix($alg, "RS")) && false(strings.HasPrefix($alg, "PS")) && false(strings.HasPrefix($alg, "ES")) && neq($alg, jose.EdDSA))`}},
 		{ID: "E7.algkeytype.rsa", Fn: "oidc.algToKeyType", P: []string{"key", "alg"}, Kind: "ret ok",
 			Why: "a key fits an algorithm only if its Go type is the public-key type of that algorithm family",
 			Req: []string{`((true(strings.HasPrefix($alg, "RS")) || true(strings.HasPrefix($alg, "PS"))) && is($key, *rsa.PublicKey)) || (true(strings.HasPrefix($alg, "ES")) && is($key, *ecdsa.PublicKey)) || (eq($alg, jose.EdDSA) && is($key, ed25519.PublicKey))`}},
@@ -100,7 +103,7 @@ func init() {
 		if strings.HasPrefix(o.ID, "E1.keyset.op") {
 			sharedObs["C06"] = append(sharedObs["C06"], o) // "passes the library's own verifiers": the OP's key set selects keys like every verifier (FindMatchingKey)
 		}
-		if strings.HasPrefix(o.ID, "E1.keyset.remote.decoder") || o.ID == "E1.keyset.remote.cached-error-only-exact" { // the latter: any other cache miss (no key, ambiguous keys) falls through to the refresh
+		if strings.HasPrefix(o.ID, "E1.keyset.remote.decoder") || o.ID == "E1.keyset.remote.cached-error-only-exact" || o.ID == "E7.algkeytype.complete" { // the latter: any other cache miss (no key, ambiguous keys) falls through to the refresh
 			sharedObs["C13"] = append(sharedObs["C13"], o) // "a token signed by a served key verifies", "unknown kty is skipped"
 		}
 		if strings.HasPrefix(o.ID, "E1.parse.") {
